@@ -326,7 +326,7 @@ func cmdCheck(args []string) int {
 	ev.Assumptions = append(ev.Assumptions, def.Assumptions...)
 	ev.Coverage.Outside = def.Outside
 	ev.Coverage.Solver = solverBin + " (SMT-LIB2 over a pipe, incremental push/pop)"
-	evPath := filepath.Join(vroot, "evidence", prop+".json")
+	evPath := filepath.Join(outRoot(vroot), "evidence", prop+".json")
 	finish := func(code int) int {
 		ev.WallS = time.Since(t0).Seconds()
 		ev.write(evPath)
@@ -370,7 +370,7 @@ func cmdCheck(args []string) int {
 			inconclusive = true
 		}
 	}
-	replayDir := filepath.Join(vroot, "replays", prop)
+	replayDir := filepath.Join(outRoot(vroot), "replays", prop)
 	for _, ob := range def.Obligations {
 		if only != "" && ob.Fn != only {
 			continue
@@ -781,4 +781,20 @@ func methodSetDiff(l *Loaded, g MethodSetGuard) (missing, gone []string) {
 	sort.Strings(missing)
 	sort.Strings(gone)
 	return
+}
+
+// outRoot is where evidence and replay files go: /verif itself when the check runs against /repo (the registered
+// use), a scratch directory when a dev sweep points the check at another tree with VERIF_REPO (so that a run
+// against a seeded change never rewrites the evidence of the real tree).
+func outRoot(vroot string) string {
+	if v := os.Getenv("VERIF_OUT"); v != "" {
+		os.MkdirAll(filepath.Join(v, "evidence"), 0755)
+		return v
+	}
+	if v := os.Getenv("VERIF_REPO"); v != "" && filepath.Clean(v) != "/repo" {
+		d := filepath.Join("/var/tmp/verif-scratch-out", strings.Replace(filepath.Clean(v), "/", "_", -1))
+		os.MkdirAll(filepath.Join(d, "evidence"), 0755)
+		return d
+	}
+	return vroot
 }
